@@ -352,6 +352,30 @@ def rw_common(toks, log):
         i += 1
     if cnt31:
         log.append(("R31 str.starts_with(char literal) -> str_starts_with_char wrapper", cnt31))
+    # R32 RECV.take(N).read_to_end(&mut V) -> RECV.take_read_to_end(N, &mut V)   (IoRead method with a trusted contract, A2)
+    cnt32 = 0
+    i = 0
+    while i + 3 < len(toks):
+        if toks[i] == "." and toks[i + 1] == "take" and toks[i + 2] == "(":
+            j = rtok.match_close(toks, i + 2) if hasattr(rtok, "match_close") else None
+            if j is None:
+                depth = 0
+                j = i + 2
+                while j < len(toks):
+                    if toks[j] in rtok.OPEN:
+                        depth += 1
+                    elif toks[j] in rtok.CLOSE:
+                        depth -= 1
+                        if depth == 0:
+                            break
+                    j += 1
+            if j + 3 < len(toks) and toks[j + 1] == "." and toks[j + 2] == "read_to_end" and toks[j + 3] == "(":
+                arg = toks[i + 3:j]
+                toks = toks[:i] + [".", "take_read_to_end", "("] + arg + [","] + toks[j + 4:]
+                cnt32 += 1
+        i += 1
+    if cnt32:
+        log.append(("R32 reader.take(n).read_to_end(&mut v) -> reader.take_read_to_end(n, &mut v)", cnt32))
     # block_on(E) -> E  (after R1 the argument is a plain call)
     toks = replace_all(toks, ["block_on", "("], ["("], log, "R1b block_on(f) -> (f)")
     # crate:: paths: everything lives in one flat module
@@ -781,6 +805,15 @@ def extract_fn(idx, c, rewrites, sig_only=False):
         body = rw_contains(body, log)
         body = rw_chars_enumerate(body, log)
         body = rw_for_index(body, log)
+    if not sig_only:
+        # module-level consts of the function's own module that the body names and no @const line declares (e.g. one
+        # introduced by an edit) are extracted verbatim as well, so that such an edit is decided instead of failing to resolve
+        mod = c.path.split("::{", 1)[0] if "::{" in c.path else c.path.rsplit("::", 1)[0]
+        for i, t in enumerate(it.body):
+            if re.match(r"[A-Z][A-Z0-9_]{2,}$", t) and (i == 0 or it.body[i - 1] not in ("::", ".")) and t not in DECLARED_CONSTS:
+                k = mod + "::" + t
+                if k in idx and idx[k].kind == "const":
+                    AUTO_CONSTS[t] = k
     sig, body = rw_mut_params(sig, body, log)
     sig = strip_quals(sig)
     sig, has_ret = named_return(sig, c.ret)
@@ -810,6 +843,8 @@ def stmt_end(body, pos, pat):
     return end
 
 
+AUTO_CONSTS = {}        # NAME -> idx key of a module-level const referenced by an extracted body and not declared with @const
+DECLARED_CONSTS = set()
 PENDING_HELPERS = []   # (fnid, [(line, origin)]) emitted after the current impl block
 
 
@@ -1150,6 +1185,9 @@ def _build_unit(idx, vc_verify, vc_trusted, spec_files, verif_root, only_fns=Non
         fns, specs = parse_vc(os.path.join(verif_root, "contracts", f))
         all_specs += [(f, s) for s in specs]
         fn_entries += [(c, True) for c in fns]
+    AUTO_CONSTS.clear()
+    DECLARED_CONSTS.clear()
+    DECLARED_CONSTS.update(a.strip().rsplit("::", 1)[-1] for (_f, (k, a, _t)) in all_specs if k == "const")
     em.add(HEADER)
     # ---------------- base
     em.add("pub mod base {")
@@ -1226,6 +1264,14 @@ def _build_unit(idx, vc_verify, vc_trusted, spec_files, verif_root, only_fns=Non
         em.add("    ensures false,", origin="unit-axioms:vacuity-twin")
         em.add("{ }", origin="unit-axioms:vacuity-twin")
         VACUITY["fns"].append("unit-axioms")
+    for name in sorted(AUTO_CONSTS):
+        ct = rw_common(list(idx[AUTO_CONSTS[name]].toks), [])
+        ct = ["pub"] + ct[ct.index("const"):]
+        ct = replace_all(ct, [":", "&", "str"], [":", "&", "'static", "str"], [], "R29")
+        ct = replace_all(ct, [":", "&", "[", "u8", "]"], [":", "&", "'static", "[", "u8", "]"], [], "R29")
+        em.add("// ---- const %s (referenced by an extracted body, extracted verbatim)" % AUTO_CONSTS[name])
+        em.add(join(ct))
+        rewrites.append((AUTO_CONSTS[name], [("module-level const referenced by an extracted function, extracted verbatim", 1)]))
     em.add("} // mod code")
     em.add("} // verus!")
     em.add("fn main() {}")
